@@ -142,6 +142,30 @@ def _decorator_names(node: ast.FunctionDef | ast.AsyncFunctionDef) -> list[str]:
     return out
 
 
+def canon_compare(node: ast.Compare) -> None:
+    """`a == b` / `a != b` with operands free of calls / awaits / walrus: put the operands into a fixed order (literals last, otherwise by
+    text), so that the commuted spelling of the same test looks the same to every rule."""
+    if len(node.ops) != 1 or not isinstance(node.ops[0], (ast.Eq, ast.NotEq)):
+        return
+    a, b = node.left, node.comparators[0]
+    for e in (a, b):
+        if any(isinstance(x, (ast.Call, ast.Await, ast.NamedExpr, ast.Yield, ast.YieldFrom)) for x in ast.walk(e)):
+            return
+    ka = (isinstance(a, ast.Constant), ast.unparse(a))
+    kb = (isinstance(b, ast.Constant), ast.unparse(b))
+    if kb < ka:
+        node.left, node.comparators = b, [a]
+
+
+def canon_text(text: str) -> str:
+    """Canonical spelling of an expression written in a rule (same operand order as the canonical source view)."""
+    tree = ast.parse(text, mode="eval")
+    for x in ast.walk(tree):
+        if isinstance(x, ast.Compare):
+            canon_compare(x)
+    return ast.unparse(tree)
+
+
 class _Canon(ast.NodeTransformer):
     """Canonical view of the source used by every rule: statements that cannot influence behaviour are dropped
     (docstrings, bare `pass` next to other statements, calls on the module logger whose arguments contain no await / walrus)
@@ -184,6 +208,45 @@ class _Canon(ast.NodeTransformer):
                     # an else/finally block that only logged: keep a pass so the structure stays visible
                     pass
                 setattr(node, fld, cleaned)
+        return node
+
+    _depth = 0
+
+    def _visit_func(self, node):
+        self._depth += 1
+        try:
+            self.generic_visit(node)
+        finally:
+            self._depth -= 1
+        return node
+
+    visit_FunctionDef = _visit_func
+    visit_AsyncFunctionDef = _visit_func
+
+    def visit_ClassDef(self, node: ast.ClassDef) -> ast.AST:
+        # class bodies keep their annotated assignments (dataclass / pydantic fields); methods inside are functions again
+        saved, self._depth = self._depth, 0
+        try:
+            self.generic_visit(node)
+        finally:
+            self._depth = saved
+        return node
+
+    def visit_AnnAssign(self, node: ast.AnnAssign) -> ast.AST | None:
+        self.generic_visit(node)
+        if self._depth > 0 and node.simple and isinstance(node.target, ast.Name):
+            if node.value is None:
+                return ast.copy_location(ast.Pass(), node)          # a bare local annotation has no run-time effect
+            return ast.copy_location(ast.Assign(targets=[node.target], value=node.value), node)
+        return node
+
+    @staticmethod
+    def _pure(e: ast.expr) -> bool:
+        return not any(isinstance(x, (ast.Call, ast.Await, ast.NamedExpr, ast.Yield, ast.YieldFrom)) for x in ast.walk(e))
+
+    def visit_Compare(self, node: ast.Compare) -> ast.AST:
+        self.generic_visit(node)
+        canon_compare(node)
         return node
 
     def visit_UnaryOp(self, node: ast.UnaryOp) -> ast.AST:
@@ -735,6 +798,9 @@ class Model:
                 x.name = roles[x.name]
             elif isinstance(x, ast.MatchAs) and x.name in locs:
                 x.name = "_L"
+        for x in ast.walk(n2):
+            if isinstance(x, ast.Compare):
+                canon_compare(x)
         return ast.unparse(n2)
 
     def mpat(self, f: FuncInfo, text: str) -> str:
@@ -754,6 +820,9 @@ class Model:
                 x.id = "_L"
             if isinstance(x, ast.ExceptHandler) and x.name:
                 x.name = "_L"
+        for x in ast.walk(tree):
+            if isinstance(x, ast.Compare):
+                canon_compare(x)
         return ast.unparse(tree)
 
     def has(self, f: FuncInfo, text: str, node: ast.AST | None = None) -> bool:
